@@ -9,6 +9,7 @@ ghost d0 = the `_data` iterator at entry, p0 = its position at entry."""
 import z3
 from pyvc.contract import Contract, Mode, Loop, Yield, Comp
 from pyvc.sym import Int, Real, Elem, Iter, Const, Builtin, Fn, SpecLambda
+from pyvc.sym import Bool as sym_Bool
 from pyvc import library as lib
 
 INF = float("inf")
@@ -157,6 +158,25 @@ smap = _mk(Contract(
     replay="oracles.c03:history", stated=["map applies the function to each remaining element, lazily"],
 ))
 
+_P = Fn([Elem], sym_Bool, name="predicate")
+_live = "k >= 0 and (not finite(data_of(self)) or k < length(data_of(self)))"
+sfilter = _mk(Contract(
+    name="Stream.filter", qual="audiolazy/lazy_stream.py::Stream.filter", kind="function", props=["C03", "C02"],
+    modes={"any": Mode(params=dict(self=lib.StreamObj(), func=_P))},
+    ghost_init=_ghost, globs=G, callees=CAL,
+    ensures=[("S:same-stream-lazily-filtered", "same(result, self) and is_filter_view(data_of(self), d0, func) and pos(data_of(self)) == 0"),
+             ("S:outputs-are-remaining-items-in-order-that-satisfy-func",
+              "forall(lambda k: implies(%s, fq(data_of(self), k) >= p0 and implies(k > 0, fq(data_of(self), k) > fq(data_of(self), k - 1)) and "
+              "arr(data_of(self))[k] == arr(d0)[fq(data_of(self), k)] and func(arr(d0)[fq(data_of(self), k)])))" % _live),
+             ("S:skipped-items-fail-func",
+              "forall(lambda k: forall(lambda j: implies((%s) and ite(k > 0, fq(data_of(self), k - 1), p0 - 1) < j and j < fq(data_of(self), k), not func(arr(d0)[j]))))" % _live),
+             ("S:nothing-after-the-last-output-satisfies-func",
+              "implies(finite(data_of(self)) and finite(d0), forall(lambda j: implies(ite(length(data_of(self)) > 0, fq(data_of(self), length(data_of(self)) - 1), p0 - 1) < j and j < length(d0), not func(arr(d0)[j]))))"),
+             ("C02:nothing-read-now", "pos(d0) == p0")],
+    replay="oracles.c03:history", stated=["filter keeps exactly the remaining items satisfying the function, in order, lazily"],
+))
+sfilter.assumptions = ["xfilter is the builtin filter: library model views.filter1 (subsequence with a strictly increasing ghost index map)"]
+
 append = _mk(Contract(
     name="Stream.append", qual="audiolazy/lazy_stream.py::Stream.append", kind="function", props=["C03", "C02"],
     modes={"one-iterator": Mode(params=dict(self=lib.StreamObj(finite=True), other=lambda m, name: (m.new_iter(Elem, "other"),)),
@@ -271,3 +291,41 @@ tostream = Contract(
              ("C02:construction-reads-nothing", "pos(args[0]) == 0")],
     stated=["@tostream: calling the decorated generator function builds Stream(func(...)) and runs nothing (a generator body runs only on next)"],
 )
+
+# ---------------------------------------------------------------------------
+# lazy_itertools.tee(data, n): n mutually independent Streams over the remaining items (streams / iterators),
+# n times the same object otherwise.  n is enumerated (1, 2 = the default, 3): the engine's tuples have concrete length.
+def _tee_mode(n, param):
+    ens = [("S:a-tuple-of-n", "len(result) == %d" % n)]
+    for i in range(n):
+        ens.append(("S:output-%d-sees-the-whole-remaining-sequence" % i,
+                    "is_stream(result[%d]) and same(arr(data_of(result[%d])), arr(d0)) and pos(data_of(result[%d])) == p0 and length(data_of(result[%d])) == length(d0)" % (i, i, i, i)))
+        ens.append(("S:output-%d-is-an-independent-tee-child-of-the-input" % i, "tee_child(data_of(result[%d]), d0, %d)" % (i, i)))
+    ens.append(("C02:construction-reads-nothing", "pos(d0) == p0"))
+    return Mode(params=dict(data=param, n=Const(n)), ensures=ens)
+
+
+ltee = Contract(
+    name="lazy_itertools.tee", qual="audiolazy/lazy_itertools.py::tee", kind="function", props=["C03", "C02"],
+    modes={"stream,n=1": _tee_mode(1, lib.StreamObj()), "stream,n=2": _tee_mode(2, lib.StreamObj()), "stream,n=3": _tee_mode(3, lib.StreamObj()),
+           "iterator,n=2": _tee_mode(2, Iter(Elem)),
+           "non-iterable,n=2": Mode(params=dict(data=Real, n=Const(2)), ensures=[("S:n-times-the-same-object", "len(result) == 2 and same(result[0], data) and same(result[1], data)")])},
+    ghost_init=["d0 = iter_of(data)", "p0 = ite(is_iterator(d0), pos(d0), 0)"],
+    globs=dict(G, Iterator="Iterator"), callees=CAL, replay="oracles.c03:tee",
+    stated=["tee outputs are mutually independent - each sees the whole remaining sequence whatever order they are consumed in"],
+)
+
+
+def _ltee_isinstance(m, v, cls):
+    from pyvc import sym
+    if cls is lib.Stream:
+        cls = "Stream"
+    if cls == "Iterator":
+        return isinstance(v, sym.Ref) and v.kind not in ("obj", "list", "ext")
+    if isinstance(cls, tuple):
+        return any(_ltee_isinstance(m, v, c) for c in cls)
+    return lib.std_isinstance(m, v, cls)
+
+
+ltee.isinstance_hook = _ltee_isinstance
+ltee.ghost_const = {"d0", "p0"}
